@@ -791,19 +791,18 @@ class ScaledArrayView(ArrayView):
         except ValueError:
             info = np.finfo(self.array.dtype)
 
-        new_max = np.max(value)
-        new_min = np.min(value)
+        if isinstance(value, ScaledArrayView):
+            value = np.array(value)
 
-        max_allowed = self._apply_scale(info.max)
-        min_allowed = self._apply_scale(info.min)
-
-        if np.any(new_max > max_allowed) or np.any(new_min < min_allowed):
+        # the check is done on the values that will actually be stored,
+        # checking in the scaled domain is unsound at the edges of the range
+        with np.errstate(over="ignore", invalid="ignore"):
+            unscaled = self._remove_scale(value)
+        if not np.all((unscaled >= info.min) & (unscaled <= info.max)):
             raise OverflowError(
                 "Values given do not fit after applying offset and scale"
             )
-        if isinstance(value, ScaledArrayView):
-            value = np.array(value)
-        self.array[key] = self._remove_scale(value)
+        self.array[key] = unscaled
 
     def __repr__(self):
         return f"<ScaledArrayView({self.scaled_array()})>"
